@@ -71,3 +71,51 @@ Print Assumptions C18_width_widen.
 Print Assumptions C18_decimal_widen.
 Print Assumptions C18_decimal_narrow.
 Print Assumptions C18_nonvacuous.
+
+From HT Require Import Proofs.JsonEscProofs.
+Theorem C18_json_spelling_uint : forall l,
+  forallb (fun be : N * bool => plain_byte (fst be)) l = true ->
+  uint_of_json_esc ([QUOTE] ++ spell l ++ [QUOTE]) = from_dec_str (map fst l).
+Proof. exact uint_json_spelling_invariant. Qed.
+Print Assumptions C18_json_spelling_uint.
+
+Theorem C18_json_spelling_dec : forall l,
+  forallb (fun be : N * bool => plain_byte (fst be)) l = true ->
+  dec_of_json_esc ([QUOTE] ++ spell l ++ [QUOTE]) = dec_from_str (map fst l).
+Proof. exact dec_json_spelling_invariant. Qed.
+Print Assumptions C18_json_spelling_dec.
+
+Theorem C18_json_esc_uint : forall n, n < W256 -> uint_of_json_esc (uint_to_json n) = Ok n.
+Proof. exact json_esc_roundtrip_uint. Qed.
+Print Assumptions C18_json_esc_uint.
+
+Theorem C18_json_esc_dec : forall v, v < W256 -> dec_of_json_esc (dec_to_json v) = Ok v.
+Proof. exact json_esc_roundtrip_dec. Qed.
+Print Assumptions C18_json_esc_dec.
+
+Theorem C18_json_respelled_uint : forall n (mask : list bool), n < W256 ->
+  uint_of_json_esc ([QUOTE] ++ spell (combine (render n) (mask ++ repeat false (length (render n)))) ++ [QUOTE]) = Ok n.
+Proof. exact json_esc_roundtrip_uint_respelled. Qed.
+Print Assumptions C18_json_respelled_uint.
+
+Theorem C18_json_respelled_dec : forall v (mask : list bool), v < W256 ->
+  dec_of_json_esc ([QUOTE] ++ spell (combine (dec_render v) (mask ++ repeat false (length (dec_render v)))) ++ [QUOTE]) = Ok v.
+Proof. exact json_esc_roundtrip_dec_respelled. Qed.
+Print Assumptions C18_json_respelled_dec.
+
+Theorem C18_json_spelling_example :
+  dec_of_json_esc [34; 48; 92; 117; 48; 48; 50; 101; 48; 48; 51; 34] = Ok 3000000000000000 /\
+  dec_of_json_esc [34; 48; 92; 117; 48; 48; 50; 101; 48; 48; 51; 34] = dec_of_json_esc [34; 48; 46; 48; 48; 51; 34] /\
+  uint_of_json_esc [34; 92; 117; 48; 48; 51; 49; 92; 117; 48; 48; 51; 50; 34] = Ok 12 /\
+  uint_of_json_esc [34; 49; 50; 34] = Ok 12 /\
+  is_ok (uint_of_json_esc [34; 49; 92; 117; 48; 48; 51; 34]) = false /\
+  is_ok (uint_of_json_esc [34; 49; 92; 120; 51; 49; 34]) = false /\
+  is_ok (uint_of_json_esc [34; 49; 92; 34]) = false /\
+  is_ok (dec_of_json_esc [34; 49; 92; 117; 48; 48; 51; 34]) = false /\
+  is_ok (dec_of_json_esc [34; 49; 92; 120; 51; 49; 34]) = false /\
+  is_ok (dec_of_json_esc [34; 49; 92; 34]) = false /\
+  json_decode_esc [34; 49; 92; 117; 48; 48; 51; 34] = Err EStd /\
+  json_decode_esc [34; 49; 92; 120; 51; 49; 34] = Err EStd /\
+  json_decode_esc [34; 49; 92; 34] = Err EStd.
+Proof. exact json_spelling_example. Qed.
+Print Assumptions C18_json_spelling_example.
